@@ -72,7 +72,7 @@ def schedules(ns, aligned_only=False):
     return res
 
 
-def h_chunk(f, ns, sched, start='zero', pastify=False, oracle='both', grid=None):
+def h_chunk(f, ns, sched, start='zero', pastify=False, oracle='both', grid=None, grids=None):
     f = T(f)
     vs = sorted(variables(f))
     op = f[0]
@@ -86,11 +86,14 @@ def h_chunk(f, ns, sched, start='zero', pastify=False, oracle='both', grid=None)
     def body(env):
         A = env.A
         son = ct.make_spec('online~', 'out = ' + text(f), vs, pastify=pastify)
-        sigs = {v: ct.signal(env, v, n, start, grid=grid) for v, n in zip(vs, ns)}
+        sigs = {v: ct.signal(env, v, n, start, grid=(grids[k] if grids else grid)) for k, (v, n) in enumerate(zip(vs, ns))}
         outs = []
         U = len(sched[0])
         for u in range(U):
             outs.append(son.update(*[[v, [list(sigs[v][i]) for i in sched[k][u]]] for k, v in enumerate(vs)]))
+        if not all(isinstance(o, list) and all(isinstance(p, (list, tuple)) and len(p) == 2 for p in o) for o in outs):
+            env.observe('cat', [])
+            return [('cat-shape', A.false)]          # an update() that returns something that is not a list of [time, value] pairs
         cat = [list(p) for o in outs for p in o]
         env.observe('cat', cat)
         res = ct.wellformed(A, cat, 'cat')
@@ -241,6 +244,20 @@ def obligations(tier, rng):
             for sc in (scheds[:2] if quick else scheds):
                 out.append(ob('C05', 'chunk', '%s/%s/grid=0,1,2,3/%s' % (fam, text(f), _sname(sc)), f=f, ns=[4, 4], sched=sc, pastify=pst, oracle='offline',
                               grid=[0, 1, 2, 3], max_paths=40000, wall=900))
+    # operands that START at different instants (one sensor comes up later): batches in which the two operands of a binary operation do not
+    # overlap at all, overlap partly, or in which the late one arrives only in a later update; the common domain starts at the later start
+    late = [(k, X, Y) for k in (BIN if not quick else ['and', 'sub', 'implies', 'since', 'geq'])]
+    late += [('once_t', ('and', X, Y), 0, 1), ('historically', ('or', X, Y))] + ([] if quick else [('since_t', X, Y, 0, 1), ('since_t', X, Y, 1, 2)])
+    lgrids = [([0, 1, 2, 3], [2, 3, 4, 5]), ([2, 3, 4, 5], [0, 1, 2, 3]), ([0, 1, 2, 3], [1.5, 2.5, 3.5, 4.5])]
+    lscheds = [[[[0, 1], [2, 3]], [[0, 1], [2, 3]]],               # first batch: the operands do not overlap at all
+               [[[0, 1, 2], [3]], [[0], [1, 2, 3]]],               # first batch: the late operand starts where the early one ends
+               [[[0, 1, 2, 3]], [[0, 1, 2, 3]]],                   # everything at once
+               [[[0], [1], [2], [3]], [[0], [1], [2], [3]]]]       # one sample of each per update
+    for f in late:
+        for gi, (gx, gy) in enumerate(lgrids if not quick else lgrids[:2]):
+            for sc in (lscheds if not quick or f[0] in ('and', 'since') else lscheds[:2]):
+                out.append(ob('C05', 'chunk', 'late%d/%s/%s' % (gi, text(f), _sname(sc)), f=f, ns=[4, 4], sched=sc, oracle='offline', grids=[gx, gy],
+                              max_paths=40000, wall=900))
     # three levels: a bounded past operator over a bounded past operator with a > 0 (what pastify() produces for a bounded-future
     # operator next to a sibling of larger horizon), alone and as the operand of a binary operation, six samples in two or more batches
     H1 = lambda g: ('historically_t', g, 0, 1)
